@@ -225,7 +225,11 @@ func (e *Engine) verifyFunction(fn *ssa.Function, fc *FuncContract) (c *Ctx) {
 				// the body mentions locals that are not live at this return: then the guard (over parameters and
 				// results only) must be false here, so that the clause says something about every return
 				if ex.Expr.Op == "binary" && ex.Expr.Name == "==>" {
-					if gd, gerr := post.evalBool(ex.Expr.Args[0]); gerr == nil {
+					gd, gerr := exitEv.evalBool(ex.Expr.Args[0])
+					if gerr != nil {
+						gd, gerr = post.evalBool(ex.Expr.Args[0])
+					}
+					if gerr == nil {
 						f.oblige("exit"+ex.Tag()+suffix, ex, rt.reach, "(not "+gd+")")
 						continue
 					}
